@@ -6,8 +6,17 @@ from .. import oracles
 from ..history import History, markers
 
 
+def has_room(Q, n):
+    """the destination of a blocked customer has a free place (the customer 'can still move': no genuine deadlock).  Judged at
+    nodes with a fixed number of servers only; with a schedule the capacity notion is outside the statement (see focused())"""
+    nd = Q.nodes[n]
+    if nd.schedule is not None or isinf(nd.node_capacity):
+        return False
+    return len(nd.all_individuals) < nd.node_capacity
+
+
 def deadlocked_set(Q):
-    """greatest fix-point: nodes all of whose servers hold customers blocked towards nodes of the set"""
+    """greatest fix-point: nodes all of whose servers hold customers blocked towards FULL nodes of the set"""
     S = set()
     for nd in Q.transitive_nodes:
         if isinf(nd.c) or not hasattr(nd, "servers") or not nd.servers:
@@ -19,7 +28,7 @@ def deadlocked_set(Q):
         changed = False
         for n in list(S):
             nd = Q.nodes[n]
-            if any(s.cust.destination not in S for s in nd.servers):
+            if any(s.cust.destination not in S or has_room(Q, s.cust.destination) for s in nd.servers):
                 S.discard(n)
                 changed = True
     return S
@@ -249,6 +258,14 @@ def focused(tier):
                    route=matrix([[0.0, 1.0, 0.0], [1.0, 0.0, 0.0], [0.0, 0.0, 1.0]])),
         "L": klass([{"script": [1.0, 1.0, BIGT]}, {"script": [12.0, BIGT]}, {"script": [200.0, BIGT]}], [[10.0, 8.0], [100.0, 50.0], [1.0]], prio=1,
                    route=matrix([[0.0, 0.0, 0.0], [1.0, 0.0, 0.0], [0.0, 0.0, 1.0]]))})
+    out[-1]["max_events"] = 40
+    out[-1]["D"] = 3
+    # scenario (round 5): the only waiting customer of node 2 reneges while a customer is blocked towards node 2; the
+    # blocked customer must take the freed place, the genuine deadlock forms later
+    mk("scenario: waiting customer reneges while another is blocked towards its node",
+       [node(c=1, cap=0), node(c=1, cap=1)],
+       {"A": klass([None, {"script": [2.0, BIGT]}], [[1.0], [10.0, 8.0]], renege=[None, [4.0, 3.0]], route=matrix([[0.0, 1.0], [1.0, 0.0]])),
+        "B": klass([{"script": [3.0, 20.0, BIGT]}, {"script": [1.0, BIGT]}], [[1.0, 0.5], [10.0, 12.0]], renege=[None, None], route=matrix([[0.0, 1.0], [1.0, 0.0]]))})
     out[-1]["max_events"] = 40
     out[-1]["D"] = 3
     mk("multi-server partial blockage", [node(c=2, cap=0), node(c=1, cap=0), node(c=1)],
